@@ -56,19 +56,19 @@ theorem parseType_compound (env : Env) (F D : Nat) (ck : CTok) (first : Tok) (pa
     (htf : tokenEofOk env.cfg w.buf = .ok (some first, b1)) (hf : first.type = "NAME") (hfv : plainVal first.value = true)
     (hall : ∀ p ∈ pairs, p.1.type = "DBL_COLON" ∧ p.2.type = "NAME" ∧ plainVal p.2.value = true)
     (hy : Yields env.cfg b1 (pairs.flatMap (fun p => [p.1, p.2])) bmid)
-    (htok : tokenEofOk env.cfg bmid = .ok (some semi, b')) (hs : semi.type = ";") (hF : pairs.length + 2 ≤ F) :
+    (htok : tokenEofOk env.cfg bmid = .ok (some semi, b')) (hs : semi.type = ";" ∨ semi.type = "{") (hF : pairs.length + 2 ≤ F) :
     ∃ (w' : World) (t' : Tok),
       interp env (parseTypeStep F (core F (D + 1)) (some ck) true) w =
         (w', .ok (some (.type (.mk (.name first.value none :: pairs.map (fun p => .name p.2.value none)) (some ck.value) false) false false), {})) ∧
-      SameButLog w w' ∧ tokenEofOk env.cfg w'.buf = .ok (some t', b') ∧ t'.type = ";" ∧ t'.value = semi.value := by
+      SameButLog w w' ∧ tokenEofOk env.cfg w'.buf = .ok (some t', b') ∧ t'.type = semi.type ∧ t'.value = semi.value := by
   obtain ⟨w1, t1, hpq, hs1, ht1, hty1, hv1⟩ := compound_pqname env F (core F D) false true ck first pairs w b1 bmid b' semi
-    hck hckt htf hf hfv hall hy htok (by rw [hs]; decide) (by rw [hs]; decide) (by omega)
+    hck hckt htf hf hfv hall hy htok (by rcases hs with h | h <;> (rw [h]; decide)) (by rcases hs with h | h <;> (rw [h]; decide)) (by omega)
   obtain ⟨w2, c2, hi2, hb2, hs2, hty2, hv2⟩ := step_token env (logged env w1 "parse_pqname") t1 b'
     (by rw [logged_buf']; exact ht1)
   have hnd : isDiscard c2.type = false := by rw [hty2]; exact tokenEofOk_not_discard ht1
   obtain ⟨w3, t3, hi3, hs3, ht3, hty3, hv3⟩ := step_returnToken env w2 c2 hnd
   refine ⟨w3, t3, ?_, ((hs1.butLog.trans (logged_butLog env w1 _)).trans hs2.butLog).trans hs3.butLog,
-    by rw [← hb2]; exact ht3, by rw [hty3, hty2, hty1, hs], by rw [hv3, hv2, hv1]⟩
+    by rw [← hb2]; exact ht3, by rw [hty3, hty2, hty1], by rw [hv3, hv2, hv1]⟩
   obtain ⟨k, rfl⟩ : ∃ k, F = k + 2 := ⟨F - 2, by omega⟩
   have hstart : Gen.pqnameStartTokens.contains ck.type = true := by
     simp only [isClassKey, Bool.or_eq_true, beq_iff_eq] at hck
@@ -83,9 +83,13 @@ theorem parseType_compound (env : Env) (F D : Nat) (ck : CTok) (first : Tok) (pa
     unfold typeBody
     simp only [hstart, ↓reduceIte, Option.isSome_none, Bool.false_eq_true, hnop, decide_false, Bool.and_false, bind, interp_bind,
       core, coreStep, hpq, pure, interp, hi2]
-  have hbody2 := typeBody_semi env (k + 2) (core (k + 2) (D + 1)) true c2
-    (some (.mk (.name first.value none :: pairs.map (fun p => .name p.2.value none)) (some ck.value) false)) false false {} false w2
-    (by rw [hty2, hty1, hs])
+  have hbody2 : interp env (typeBody (k + 2) (core (k + 2) (D + 1)) true (c2,
+      some (.mk (.name first.value none :: pairs.map (fun p => .name p.2.value none)) (some ck.value) false), false, false, {}, false)) w2 =
+      (w2, .ok (.inr (c2, some (.mk (.name first.value none :: pairs.map (fun p => .name p.2.value none)) (some ck.value) false),
+        false, false, {}, false))) := by
+    rcases hs with h | h
+    · exact typeBody_semi env _ _ true c2 _ false false {} false w2 (by rw [hty2, hty1, h])
+    · exact typeBody_brace env _ _ true c2 _ false false {} false w2 (by rw [hty2, hty1, h])
   unfold parseTypeStep
   simp only [pure, interp, bind, interp_bind]
   rw [loopN]
@@ -117,8 +121,8 @@ theorem parseDeclarations_fwd (env : Env) (F D : Nat) (ck : CTok) (doxygen : Opt
       w7.delivered = w.delivered + 1 ∧ w7.anon = w.anon ∧ w7.muted = false ∧ w7.nextId = w.nextId ∧
       w7.mainTok = w.mainTok := by
   obtain ⟨w1, t1, hi1, hs1, ht1, hty1, _⟩ := parseType_compound env F D ck first pairs w b1 bmid b' semi hck hckt htf hf hfv hall hy
-    htok hs hF
-  obtain ⟨w2, c2, hi2, hb2, hs2, _, _⟩ := step_tokenIf_hit env [";"] w1 t1 b' ht1 (by rw [hty1]; decide)
+    htok (.inl hs) hF
+  obtain ⟨w2, c2, hi2, hb2, hs2, _, _⟩ := step_tokenIf_hit env [";"] w1 t1 b' ht1 (by rw [hty1, hs]; decide)
   have hsl : SameButLog w w2 := hs1.trans hs2.butLog
   have hst2 : w2.stack = blk :: rest := by rw [hsl.stack]; exact hstack
   have htop2 := interp_getTop env w2 blk rest hst2
